@@ -1,15 +1,49 @@
-//! Facade for `threadpool`: `execute` spawns a detached simulator task per job. The
-//! original multiplexes jobs over N OS threads; dora-runtime submits at most N jobs at a
-//! time (one sweep task per worker), so concurrency is the same.
+//! Facade for `threadpool`: N persistent worker tasks of the simulator take jobs from a
+//! shared queue; `execute` enqueues and returns. Dropping the pool lets the workers drain
+//! the queue and stop, like closing the original's channel.
+
+use shuttle::sync::{Condvar, Mutex};
+use std::collections::VecDeque;
+use std::sync::Arc;
+
+type Job = Box<dyn FnOnce() + Send + 'static>;
+
+struct Shared {
+    queue: Mutex<(VecDeque<Job>, bool)>,
+    available: Condvar,
+}
 
 pub struct ThreadPool {
     n: usize,
+    shared: Arc<Shared>,
 }
 
 impl ThreadPool {
     pub fn new(n: usize) -> ThreadPool {
         assert!(n >= 1);
-        ThreadPool { n }
+        let shared = Arc::new(Shared { queue: Mutex::new((VecDeque::new(), false)), available: Condvar::new() });
+        for _ in 0..n {
+            let shared = shared.clone();
+            shuttle::thread::spawn(move || loop {
+                let job = {
+                    let mut q = shared.queue.lock().unwrap();
+                    loop {
+                        if let Some(j) = q.0.pop_front() {
+                            break Some(j);
+                        }
+                        if q.1 {
+                            break None;
+                        }
+                        q = shared.available.wait(q).unwrap();
+                    }
+                };
+                match job {
+                    Some(job) => job(),
+                    None => break,
+                }
+            });
+        }
+        ThreadPool { n, shared }
     }
 
     pub fn max_count(&self) -> usize {
@@ -20,6 +54,17 @@ impl ThreadPool {
     where
         F: FnOnce() + Send + 'static,
     {
-        shuttle::thread::spawn(job);
+        self.shared.queue.lock().unwrap().0.push_back(Box::new(job));
+        self.shared.available.notify_one();
+    }
+}
+
+impl Drop for ThreadPool {
+    fn drop(&mut self) {
+        if !verif_rt::is_active() {
+            return;
+        }
+        self.shared.queue.lock().unwrap().1 = true;
+        self.shared.available.notify_all();
     }
 }
